@@ -85,6 +85,11 @@ type DB struct {
 		m map[int]*ltx.FileInfo
 	}
 
+	// Highest local TXID a sync of this process has seen or produced. A local
+	// position below it means level-0 files were lost while running. Only
+	// accessed while holding the sync executor.
+	lastTXID ltx.TXID
+
 	// Cached position from the latest L0 LTX file.
 	// nil means cache is invalid; non-nil is the cached position.
 	pos struct {
@@ -2000,10 +2005,12 @@ func (db *DB) newSyncExecutor(ctx context.Context) (*syncExecutor, error) {
 	}
 
 	// The local state may have been reset while running (ResetLocalState,
-	// auto-recover). init compares with the replica only once, so do it again
-	// whenever we are back at position zero: otherwise TXIDs restart below the
-	// replica's and nothing is uploaded while syncs keep succeeding.
-	if initialized && pos.TXID == 0 && db.Replica != nil {
+	// auto-recover), or local level-0 files may have been lost. init compares
+	// with the replica only once, so do it again whenever the local position
+	// has moved backwards (to zero or to an older file): otherwise TXIDs that
+	// already exist on the replica are created again with other content and
+	// nothing, or only the tail, is uploaded while syncs keep succeeding.
+	if initialized && (pos.TXID == 0 || pos.TXID < db.lastTXID) && db.Replica != nil {
 		db.syncState = syncState{} // it described the local files that are gone
 		if err := db.checkDatabaseBehindReplica(ctx); err != nil {
 			return nil, fmt.Errorf("check database behind replica: %w", err)
@@ -2012,6 +2019,7 @@ func (db *DB) newSyncExecutor(ctx context.Context) (*syncExecutor, error) {
 			return nil, fmt.Errorf("pos: %w", err)
 		}
 	}
+	db.lastTXID = pos.TXID
 
 	return &syncExecutor{
 		state: db.syncState,
@@ -2032,6 +2040,7 @@ func (db *DB) applySyncExecutor(exec *syncExecutor, notify bool) {
 		pos := exec.pos
 		db.pos.value = &pos
 		db.pos.Unlock()
+		db.lastTXID = exec.pos.TXID
 	}
 
 	if exec.l0FileInfo != nil {
